@@ -180,7 +180,7 @@ def rule_patterns(rng, var_pool, per_pattern=3):
         out.append(('Recip', ('Mul', [f(), f()])))
         out.append(('Cos', ('Neg', f())))
         out.append(('Sin', ('Neg', f())))
-        for c in (1, 1.0, 0, 0.0, 2, 3.0, 5, -1, -1.0, 0.5, -2, 2.5, 1e3):
+        for c in (1, 1.0, 0, 0.0, 2, 3.0, 5, -1, -1.0, 0.5, -2, 2.5, 3.5, 4.25, 1e3):
             out.append(('Power', f(), ('C', c)))
             out.append(('Power', ('C', c), f()))
         out.append(('Power', ('Power', f(), f()), f()))
